@@ -48,6 +48,10 @@ def gen(seed, run, sub="clean", tier="quick"):
            "drop_while_booting": r.random() < 0.3, "resend_with_ok": True}
     if not cfg["greeting"]:
         cfg["drop_while_booting"] = False if r.random() < 0.7 else True
+    if cfg["greeting"].startswith("Grbl") and r.random() < 0.85:
+        # a Grbl device that drops the G4 P0 probe makes connect() poll forever (outside C16);
+        # keep that environment rare so that runs exercise write()/disconnect()
+        cfg["drop_while_booting"] = False
     faults = []
     if r.random() < 0.5:
         for _ in range(r.choice([1, 2, 5])):
@@ -78,7 +82,7 @@ def gen(seed, run, sub="clean", tier="quick"):
     return {
         "lane": "c16", "sub": sub, "transport": transport, "via": via, "cfg": cfg,
         "stmts": stmts, "replies": replies, "faults": faults, "ops": ops, "draws": draws,
-        "eol": r.choice(["\n", "\r\n", ""]),
+        "eol": r.choice(["\n", "\r\n", ""]), "max_steps": 60000,
         "sched": common.gen_sched(r, "%s/%s/c16" % (seed, run), est_steps=300 + 250 * n),
     }
 
@@ -424,8 +428,13 @@ def check(scn, k, fw, hist, state, lost, DeviceError, hostmsgs, ackhist, relaxed
         for (hs, t, hd), a_ in zip(hostmsgs, acted):
             if not is_err(t) or a_ is None:
                 continue
-            nxt = [c for c in calls if c["out"] is not None and c["out"] > a_]
-            if nxt and not (nxt[0]["kind"] == "raise" and isinstance(nxt[0]["exc"], DeviceError)):
+            # the stored error is raised by the write in progress (if its error check had not
+            # run yet) or else by the first write that starts afterwards
+            def raised(c):
+                return c["kind"] == "raise" and isinstance(c["exc"], DeviceError)
+            cur = [c for c in calls if c["out"] is not None and c["call"] < a_ < c["out"]]
+            nxt = [c for c in calls if c["out"] is not None and c["call"] > a_]
+            if not (any(raised(c) for c in cur) or not nxt or raised(nxt[0])):
                 V("error-swallowed", stmt=nxt[0]["i"], reply=t[:40])
 
     if not loss:
